@@ -50,6 +50,8 @@ type c07Op struct {
 	wantValue reflect.Value
 	wantErr   bool
 	byValue   bool // Marshal(nil, v) instead of Marshal(nil, &v)
+	tag       string // for codecForType: CodecForTypeWithTag with this tag option when non-empty
+	wantKind  string // ... and the kind of codec the reference instance hands out for (type, tag)
 }
 
 type c07Result struct {
@@ -112,9 +114,14 @@ func c07RunOp(p *plenc.Plenc, cfg model.Cfg, op *c07Op, pkgLevel bool) string {
 		var err error
 		var cd plenccodec.Codec
 		pn := core.Guard(func() {
-			if pkgLevel {
+			switch {
+			case op.tag != "" && pkgLevel:
+				cd, err = plenc.CodecForTypeWithTag(op.typ, op.tag)
+			case op.tag != "":
+				cd, err = p.CodecForTypeWithTag(op.typ, op.tag)
+			case pkgLevel:
 				cd, err = plenc.CodecForType(op.typ)
-			} else {
+			default:
 				cd, err = p.CodecForType(op.typ)
 			}
 		})
@@ -123,6 +130,9 @@ func c07RunOp(p *plenc.Plenc, cfg model.Cfg, op *c07Op, pkgLevel bool) string {
 		}
 		if (err != nil) != op.wantErr || (err == nil && cd == nil) {
 			return fmt.Sprintf("CodecForType error %v, alone it gives error=%v", err, op.wantErr)
+		}
+		if err == nil && op.wantKind != "" && fmt.Sprintf("%T", cd) != op.wantKind {
+			return fmt.Sprintf("CodecForTypeWithTag(%s, %q) handed out a %T, alone it hands out a %s", op.typ, op.tag, cd, op.wantKind)
 		}
 	}
 	return ""
@@ -156,8 +166,30 @@ func c07Prepare(r *rand.Rand, cfg model.Cfg, fam c07Family, nworkers, nops int) 
 					op.wantValue, op.wantErr = tv.Elem(), err != nil
 				}
 			case 2:
-				_, err := ref.CodecForType(op.typ)
-				op.wantErr = err != nil
+				// half of the codec requests name a tag option that selects another codec for the type
+				if r.IntN(2) == 0 {
+					switch k := op.typ.Kind(); {
+					case k == reflect.Slice || k == reflect.Map:
+						op.tag = "proto"
+					case k >= reflect.Int && k <= reflect.Int64:
+						op.tag = "flat"
+					case k == reflect.String:
+						op.tag = "intern"
+					}
+				}
+				if op.tag != "" {
+					cd, err := ref.CodecForTypeWithTag(op.typ, op.tag)
+					op.wantErr = err != nil
+					if err == nil {
+						op.wantKind = fmt.Sprintf("%T", cd)
+					}
+				} else {
+					cd, err := ref.CodecForType(op.typ)
+					op.wantErr = err != nil
+					if err == nil {
+						op.wantKind = fmt.Sprintf("%T", cd)
+					}
+				}
 			}
 			ops[w] = append(ops[w], op)
 		}
@@ -439,8 +471,13 @@ func c07Case(c *core.Ctx, idx int) {
 		ok := s.Run(fns)
 		c07YieldMode = 0
 		c07Sched = nil
+		rec.Count("blocked_worker_bypassed", s.Blocked)
+		if !ok && s.Why == "watchdog" {
+			rec.Count("inconclusive_trials", 1)
+			return
+		}
 		if !ok {
-			rec.Violation("scheduler-stuck", fmt.Sprintf("[%s] family %s: the serialised goroutines stopped making progress (a goroutine blocked while holding something another needs)", name, fam.name), extra)
+			rec.Violation("scheduler-stuck", fmt.Sprintf("[%s] family %s: every unfinished goroutine is blocked and the process has been idle for 3 s (deadlock)", name, fam.name), extra)
 			return
 		}
 		h := core.Hash64(fam.name, name)
@@ -546,6 +583,11 @@ func c07Systematic(c *core.Ctx, idx int) {
 		ok := s.Run(fns)
 		c07YieldMode = 0
 		c07Sched = nil
+		rec.Count("blocked_worker_bypassed", s.Blocked)
+		if !ok && s.Why == "watchdog" {
+			rec.Count("inconclusive_trials", 1)
+			return s.Steps(), "", false
+		}
 		if !ok {
 			return s.Steps(), "", true
 		}
